@@ -109,6 +109,31 @@ func runC12(w *fw.W) {
 		}
 		pool.Vals = append(pool.Vals, &PoolVal{Name: name, Src: src, Family: "obj", Tags: map[string]bool{"desc": true, "propless": true}, Val: o.Val})
 	}
+	// instances made by `new` of prototypes that override B: the runtime kind (nil, int, str, arr, …) is the built-in one,
+	// the B that decides is the prototype's
+	for _, src := range []string{"Nil.bear({B: m{true}}).new", "Nil.bear({B: m{false}}).new", "Int.bear({B: m{true}}).new(0)", "Int.bear({B: m{false}}).new(7)",
+		"Str.bear({B: m{true}}).new(\"\")", "Str.bear({B: m{false}}).new(\"x\")", "Arr.bear({B: m{true}}).new([])", "Arr.bear({B: m{false}}).new([1])", "Float.bear({B: m{true}}).new(0.0)",
+		"Float.bear({B: m{false}}).new(1.5)", "Map.bear({B: m{true}}).new(%{})", "Map.bear({B: m{false}}).new(%{1: 2})", "Obj.bear({B: m{false}}).new({a: 1})", "Range.bear({B: m{false}}).new(1, 2)",
+		"Nil.bear({B: m{true}}).new.bear", "Nil.bear({B: m{1}}).new", "Int.bear({B: m{nil}}).new(3)"} {
+		name := fmt.Sprintf("x%d", len(pool.Vals))
+		o := ip.Run(name+" := "+src, interp.Options{Env: pool.Env, Fuel: -1})
+		if !o.OK() {
+			continue
+		}
+		pool.Vals = append(pool.Vals, &PoolVal{Name: name, Src: src, Family: "obj", Tags: map[string]bool{"desc": true, "userB": true, "made-by-new": true}, Val: o.Val})
+	}
+	// values that have no B property at all (forests rooted at BaseObj), with and without a `_missing` that would
+	// answer true to any name: not having the property, they are not true — for every construct alike (the
+	// constructs written with `!` are left out: `!` itself is a property these values do not have)
+	for _, src := range []string{"BaseObj.bear({_missing: m{|name| true}})", "BaseObj.bear({_missing: m{|name| true}}).bear", "BaseObj.bear({_missing: m{|name| true}}).bear({x: 1})",
+		"BaseObj.bear({a: 1})", "BaseObj.bear({a: 1}).bear", "BaseObj.bear({_missing: m{|name| false}})", "BaseObj.bear({_missing: m{|name| raise ValueErr.new(name)}})"} {
+		name := fmt.Sprintf("x%d", len(pool.Vals))
+		o := ip.Run(name+" := "+src, interp.Options{Env: pool.Env, Fuel: -1})
+		if !o.OK() {
+			continue
+		}
+		pool.Vals = append(pool.Vals, &PoolVal{Name: name, Src: src, Family: "obj", Tags: map[string]bool{"desc": true, "noB": true}, Val: o.Val})
+	}
 	wv := map[bool]object.PanObject{} // distinct operands with known truthiness
 	xo := ip.Run(`{tag: "x-operand"}`, interp.Options{})
 	wo := ip.Run(`{tag: "w-operand"}`, interp.Options{})
@@ -163,14 +188,23 @@ func runC12(w *fw.W) {
 			return ip.EvalNode(t.Prog, interp.Options{Env: env, Fuel: 100000}, nil)
 		}
 		bo := evalIn(tB, map[string]object.PanObject{"v": v.Val})
-		if !bo.OK() && (bo.Err == nil || bo.ErrKind == "NoPropErr") {
+		if !v.Has("noB") && !bo.OK() && (bo.Err == nil || bo.ErrKind == "NoPropErr") {
 			// (a value without any B — BaseObj — has no truth to agree on)
 			w.End(fw.Result{Verdict: fw.Inconclusive, Reason: "B-not-a-value"})
 			continue
 		}
 		// a B that raises does not yield the true singleton: such a value is falsy for every construct alike
 		truth := bo.OK() && bo.Val == object.BuiltInTrue
+		if v.Has("noB") {
+			truth = false
+		}
 		kcls := v.Family
+		if v.Has("noB") {
+			kcls += "+no-B-prop"
+		}
+		if v.Has("made-by-new") {
+			kcls += "+made-by-new"
+		}
 		if v.Has("desc") {
 			kcls += "+desc"
 		}
@@ -194,6 +228,9 @@ func runC12(w *fw.W) {
 			wtruths = []bool{true, false}
 		}
 		for _, c := range c12constructs {
+			if v.Has("noB") && strings.Contains(c.src, "!") {
+				continue
+			}
 			for _, wt := range wtruths {
 				bind := map[string]object.PanObject{"v": v.Val, "w": wv[wt], "x": xo.Val}
 				o := evalIn(tmpls[c.name], bind)
